@@ -158,6 +158,9 @@ func cmdDump(args []string) {
 			if os.Getenv("GOVC_GROUND") == "1" {
 				o.DropQuantified = true
 			}
+			if os.Getenv("GOVC_FOCUS") == "1" {
+				o.Focus = true
+			}
 			fmt.Printf("; %s\n%s\n", o.Name, o.Query(true))
 			return
 		}
